@@ -1,8 +1,8 @@
 (* Single entry point of the extracted model runner: name + argument -> observation. *)
 From Coq Require Import List NArith ZArith Bool.
 From Coq Require Import QArith.
-From NV Require Import Prelude.Str Prelude.Res Prelude.Sx Model.Url Model.Redirect Model.Bucket Model.Ip Model.Titan Model.ServerProto.
-From NV Require Spec.C19 Spec.C16 Spec.C10 Spec.C09 Spec.ServerTrace Spec.C01 Spec.C04 Spec.C07 Spec.C15.
+From NV Require Import Prelude.Str Prelude.Res Prelude.Sx Model.Url Model.Redirect Model.Bucket Model.Ip Model.Titan Model.ServerProto Model.Proxy.
+From NV Require Spec.C19 Spec.C16 Spec.C10 Spec.C09 Spec.ServerTrace Spec.C01 Spec.C04 Spec.C07 Spec.C15 Spec.C08 Spec.C17.
 Import ListNotations.
 Open Scope N_scope.
 
@@ -210,5 +210,34 @@ Definition dispatch (name : str) (arg : sx) : sx :=
   else if eqb name (lit "C07.same") then sB (Spec.C07.same (read_obs (nth_sx 0 arg)) (read_obs (nth_sx 1 arg)))
   else if eqb name (lit "C15.ok") then
     sB (Spec.C15.ok (map read_sevent (as_list (nth_sx 1 arg))) (read_obs (nth_sx 2 arg)))
+  else if eqb name (lit "C08.ok") then
+    sB (Spec.C08.ok (ip6_of_table (nth_sx 5 (nth_sx 0 arg))) (read_cfg (nth_sx 0 arg))
+          (map read_sevent (as_list (nth_sx 1 arg))) (read_obs (nth_sx 2 arg))
+          (match as_list (nth_sx 3 arg) with
+           | [h; p; pa; q] => Some {| Spec.C08.k_host := as_str h; Spec.C08.k_port := as_N p;
+                                      Spec.C08.k_path := as_str pa; Spec.C08.k_query := as_str q |}
+           | _ => None end))
+  else if eqb name (lit "proxy") then
+    (* arg: upstream prefix strip path query ip6table -> url + what the client does with it *)
+    let c := {| px_upstream := as_str (nth_sx 0 arg); px_prefix := as_str (nth_sx 1 arg); px_strip := as_bool (nth_sx 2 arg) |} in
+    let url := upstream_url c (as_str (nth_sx 3 arg)) (as_str (nth_sx 4 arg)) in
+    L [A url;
+       match gemini_from_line (ip6_of_table (nth_sx 5 arg)) url with
+       | Ok p => L [sT "connect"; A (p_host p); sN (p_port p); A (p_norm p)]
+       | Err k _ => L [sT "refused"; A k]
+       | OutOfModel => L [sT "oom"]
+       end]
+  else if eqb name (lit "C17.ok") then
+    (* arg: upstream prefix strip path query ip6table host port line *)
+    sB (Spec.C17.ok (ip6_of_table (nth_sx 5 arg))
+          {| px_upstream := as_str (nth_sx 0 arg); px_prefix := as_str (nth_sx 1 arg); px_strip := as_bool (nth_sx 2 arg) |}
+          (as_str (nth_sx 3 arg)) (as_str (nth_sx 4 arg))
+          {| Spec.C17.ob_host := as_str (nth_sx 6 arg); Spec.C17.ob_port := as_N (nth_sx 7 arg); Spec.C17.ob_line := as_str (nth_sx 8 arg) |})
+  else if eqb name (lit "route") then
+    (* arg: routes ((pattern type) ...) path -> index of the matching route or () *)
+    let rs := map (fun r => {| rt_pattern := as_str (nth_sx 0 r);
+                               rt_type := if eqb (as_str (nth_sx 1 r)) (lit "exact") then RExact else RPrefix;
+                               rt_handler := as_N (nth_sx 2 r) |}) (as_list (nth_sx 0 arg)) in
+    match route_to rs (as_str (nth_sx 1 arg)) with Some i => L [sN i] | None => L [] end
   else L [sT "unknown-model"; A name].
 Close Scope N_scope.
